@@ -15,6 +15,10 @@ Clause → theorem
 | every custom wasm message: the extracted guard is the expected one (20 handlers, both networks, right contract index) | `wasm_guards_expected`, `wasm_authorized_iff_designated` |
 | kill switch admin-only | `admin_only_killswitch`, `admin_guard_blocks` |
 | table sizes / spot entries | `table_sizes`, `handler_names_pinned`, `spot_*`, `every_handler_has_exit` |
+| SCOPE: every entry point through which state can be changed from outside is inventoried and classified by who may call it (70 messages of all modules = the protobuf MsgServer interfaces, 26 proposal contents, 20 wasm variants, 9 IBC callbacks, 13 block hooks, 3 migrations, 23 upgrade handlers) | `entry_points_classified`, `entry_point_counts`, `msg_entry_points_complete`, `spot_entry_points`, `unwired_entry_points_pinned`, `ibc_callbacks_pinned` |
+| every position-naming entry point is owner-guarded or on the reviewed list; no non-message entry point takes a position id | `position_naming_entry_points_guarded`, `nonmsg_position_readers_pinned` |
+| every privileged entry point (admin / gov / contract) has its authority guard before its first write; which ones are privileged | `privileged_entry_points_guarded`, `privileged_entry_points_pinned`, `proposals_pinned`, `gov_only_blocks`, `gov_authority_runs_handler` |
+| the keeper functions behind proposal handlers and wasm variants are reached from no message handler (two reviewed fee-paying exceptions) | `privileged_targets_reach_pinned` |
 
 The tables come from `Gen/Guards.lean`, regenerated from /repo on every run: dropping an owner check, re-ordering it behind an
 early successful return, changing a chain id or a contract index makes one of the `decide` obligations fail to compile.
@@ -303,7 +307,7 @@ theorem spec_wasm_count : Spec.wasmExpected.length = 20 ∧ (Spec.wasmExpected.f
 
 /-! ## pinned sizes and spot entries (an extractor that silently returns nothing fails here) -/
 
-theorem table_sizes : handlers.length = 62 ∧ wasmHandlers.length = 20 ∧ sweeps.length = 7 ∧ wasmAddrLists.length = 2 := by decide +kernel
+theorem table_sizes : handlers.length = 70 ∧ wasmHandlers.length = 20 ∧ sweeps.length = 10 ∧ wasmAddrLists.length = 2 := by decide +kernel
 
 theorem every_handler_has_exit : ∀ h ∈ handlers, hasExit h = true := by decide +kernel
 
@@ -325,7 +329,9 @@ theorem handler_names_pinned : handlers.map qname = [
     "liquidation.MsgLiquidateVault", "liquidation.MsgLiquidateBorrow",
     "liquidationsV2.MsgLiquidateInternalKeeper", "liquidationsV2.MsgAppReserveFunds",
     "liquidationsV2.MsgLiquidateExternalKeeper",
-    "auction.MsgPlaceSurplusBid", "auction.MsgPlaceDebtBid", "auction.MsgPlaceDutchBid", "auction.MsgPlaceDutchLendBid"] := by
+    "auction.MsgPlaceSurplusBid", "auction.MsgPlaceDebtBid", "auction.MsgPlaceDutchBid", "auction.MsgPlaceDutchLendBid",
+    "asset.AddAsset", "collector.Deposit", "rewards.CreateGauge", "rewards.ExternalRewardsLockers", "rewards.ExternalRewardsVault",
+    "rewards.ExternalRewardsLend", "rewards.ExternalRewardsStableMint", "tokenmint.MsgMintNewTokens"] := by
   decide +kernel
 
 /-- the message signer field found in each module's `GetSigners` -/
@@ -351,5 +357,139 @@ theorem spot_cancel_order :
     ((find? "liquidity.CancelOrder").map fun h =>
       (h.items.filter fun it => (it.kind == 0 && it.cls != 0 && it.cls < 7) || it.kind == 2).map fun it => (it.kind, it.cls, it.keyed, it.wb)) =
     some [(2, 0, false, false), (0, 1, false, false)] := by decide +kernel
+
+/-! ## the inventory of entry points (scope of the property: EVERY way state can be changed from outside)
+
+`entryPoints` (regenerated, extract/guards/entry.go): every method of every protobuf `MsgServer` interface of x/*, every content
+type of every governance proposal handler (x/*/handler.go, x/*/keeper/gov.go), every custom wasm variant, the IBC callbacks of
+x/bandoracle, every Begin/EndBlocker, every registered store migration, every upgrade handler of app/upgrades — each with who may
+call it as found in the code. -/
+
+/-- every entry point is classified: its caller class is one of the known ones (the extractor writes `unknown` when it cannot
+tell: a message without handler or signer field, a proposal case that ends in no keeper function, a wasm variant without a
+leading guard), and `none` is used exactly for code that is not wired into the app -/
+theorem entry_points_classified :
+    ∀ e ∈ entryPoints, e.caller ∈ callerClasses ∧ ((e.caller == "none") = !e.registered) := by decide +kernel
+
+theorem entry_point_counts :
+    (["msg", "proposal", "wasm", "ibc", "blocker", "migration", "upgrade"].map fun k => (entryPoints.filter (·.kind == k)).length) =
+      [70, 26, 20, 9, 13, 3, 23] ∧ entryPoints.length = 164 := by decide +kernel
+
+/-- the message entry points ARE the methods of the protobuf MsgServer interfaces (what the msg-service router can route), in
+order, and each has a flattened handler in the table; the table has no handler beyond them -/
+theorem msg_entry_points_complete :
+    (entryPoints.filter (·.kind == "msg")).map (fun e => (e.module, e.name)) = pbMsgMethods ∧
+    (∀ m ∈ pbMsgMethods, (find? (m.1 ++ "." ++ m.2)).isSome = true) ∧
+    (∀ h ∈ handlers, (h.module, h.name) ∈ pbMsgMethods) ∧ pbMsgMethods.length = 70 := by decide +kernel
+
+/-- **every position-naming entry point** (a position record that is not keyed by the caller is read) is a message whose
+handler checks the owner on every route to success, or is on the reviewed `ownerless` list -/
+theorem position_naming_entry_points_guarded :
+    ∀ e ∈ entryPoints, e.namesPosition = true → entryOwnerGuarded ownerless e = true := by decide +kernel
+
+/-- no proposal handler, wasm variant, IBC callback, migration or upgrade handler takes a position id from its caller; the ones
+that READ position records at all (to sweep / iterate them) are pinned -/
+theorem nonmsg_position_readers_pinned :
+    ((entryPoints.filter fun e => e.kind != "msg" && (e.namesPosition || e.readsPos)).map fun e => (e.kind, epName e, e.namesPosition)) =
+      [("wasm", "wasm.MsgUpdatePairsVault", false), ("wasm", "wasm.MsgUpdateCollectorLookupTable", false),
+       ("wasm", "wasm.MsgEmissionRewards", false),
+       ("blocker", "auction.BeginBlocker", false), ("blocker", "auctionsV2.BeginBlocker", false),
+       ("blocker", "liquidation.BeginBlocker", false), ("blocker", "liquidationsV2.BeginBlocker", false),
+       ("blocker", "liquidity.EndBlocker", false), ("blocker", "rewards.BeginBlocker", false)] := by decide +kernel
+
+/-- **every privileged entry point has its authority guard before its first write** (see `entryGuarded`): the admin test of the
+kill switch; for each of the 26 proposal contents the gov router is the only way to the keeper function; for each of the 20 wasm
+variants the chain-id / sender comparison is the first statement -/
+theorem privileged_entry_points_guarded : ∀ e ∈ entryPoints, epPrivileged e = true → entryGuarded e = true := by decide +kernel
+
+/-- which entry points are privileged — pinned, so that a privileged operation that silently becomes callable by anyone (its
+class turns into `signer`) or a new one fails here -/
+theorem privileged_entry_points_pinned :
+    ((entryPoints.filter epPrivileged).map fun e => (e.caller, epName e)) =
+      [("admin", "esm.MsgKillSwitch"),
+       ("gov", "asset.AddAssetsProposal"), ("gov", "asset.AddMultipleAssetsProposal"), ("gov", "asset.UpdateAssetProposal"),
+       ("gov", "asset.AddPairsProposal"), ("gov", "asset.AddMultiplePairsProposal"), ("gov", "asset.UpdatePairProposal"),
+       ("gov", "asset.UpdateGovTimeInAppProposal"), ("gov", "asset.AddAppProposal"), ("gov", "asset.AddAssetInAppProposal"),
+       ("gov", "asset.AddMultipleAssetsPairsProposal"), ("gov", "auctionsV2.DutchAutoBidParamsProposal"),
+       ("gov", "bandoracle.FetchPriceProposal"),
+       ("gov", "lend.LendPairsProposal"), ("gov", "lend.MultipleLendPairsProposal"), ("gov", "lend.AddPoolsProposal"),
+       ("gov", "lend.AddAssetToPairProposal"), ("gov", "lend.AddMultipleAssetToPairProposal"), ("gov", "lend.AddAssetRatesParams"),
+       ("gov", "lend.AddAuctionParamsProposal"), ("gov", "lend.AddPoolPairsProposal"),
+       ("gov", "lend.AddAssetRatesPoolPairsProposal"), ("gov", "lend.AddPoolDepreciateProposal"), ("gov", "lend.AddEModePairsProposal"),
+       ("gov", "liquidationsV2.WhitelistLiquidationProposal"),
+       ("gov", "liquidity.UpdateGenericParamsProposal"), ("gov", "liquidity.CreateNewLiquidityPairProposal")] ++
+      Spec.wasmExpected.map (fun p => ("contract", "wasm." ++ p.1)) := by decide +kernel
+
+/-- the proposal handlers: constructor, content type, the keeper function it ends in and what that one calls; all routed -/
+theorem proposals_pinned :
+    proposals.length = 26 ∧ (∀ p ∈ proposals, p.routed = true ∧ p.writes = true ∧ p.otherCallers = []) ∧
+    (proposals.map (·.ctor)).eraseDups =
+      ["NewUpdateAssetProposalHandler", "NewAuctionsV2Handler", "NewFetchPriceHandler", "NewLendHandler",
+       "NewLiquidationsV2Handler", "NewLiquidityProposalHandler"] ∧
+    ((proposals.filter fun p => p.module == "liquidity" || p.module == "bandoracle").map fun p => (p.content, p.keeperFn, p.targets)) =
+      [("FetchPriceProposal", "bandoracle.HandleProposalFetchPrice", ["bandoracle.AddFetchPriceRecords"]),
+       ("UpdateGenericParamsProposal", "liquidity.HandelUpdateGenericParamsProposal", ["liquidity.UpdateGenericParams"]),
+       ("CreateNewLiquidityPairProposal", "liquidity.HandelCreateNewLiquidityPairProposal", ["liquidity.CreatePair"])] := by
+  decide +kernel
+
+/-- code that exists but is not wired into the app (pinned: wiring one of them in changes the scope): the gen-1 auction and
+liquidation BeginBlockers (their `AppModule.BeginBlock` bodies are commented out) and the upgrade handlers of past versions -/
+theorem unwired_entry_points_pinned :
+    ((entryPoints.filter fun e => e.caller == "none" && e.kind != "upgrade").map fun e => (e.kind, epName e)) =
+      [("blocker", "auction.BeginBlocker"), ("blocker", "liquidation.BeginBlocker")] ∧
+    ((entryPoints.filter fun e => e.kind == "upgrade" && e.registered).map epName) = ["mainnet/v13.CreateUpgradeHandlerV13"] ∧
+    ((entryPoints.filter fun e => e.kind == "migration").map fun e => (epName e, e.via)) =
+      [("lend.Migrate2to3", "from v2"), ("liquidity.Migrate1to2", "from v1"), ("rewards.Migrate2to3", "from v2")] ∧
+    ((entryPoints.filter fun e => e.kind == "blocker" && e.registered).map epName) =
+      ["asset.BeginBlocker", "auctionsV2.BeginBlocker", "bandoracle.BeginBlocker", "esm.BeginBlocker", "lend.BeginBlocker",
+       "liquidationsV2.BeginBlocker", "liquidity.BeginBlocker", "liquidity.EndBlocker", "market.BeginBlocker",
+       "rewards.BeginBlocker", "rewards.EndBlocker"] := by decide +kernel
+
+/-- IBC callbacks of x/bandoracle: the channel handshake tests port and version before anything is claimed; a received packet is
+looked at only when its destination channel is the configured source channel (before the write of the result). The
+acknowledgement callback writes `LastFetchPriceID` without a test of its own: IBC core calls it only for a packet this chain
+sent (packet commitment) — trusted, recorded. -/
+theorem ibc_callbacks_pinned :
+    (ibcCallbacks.map fun c => (c.name, c.guard, c.writes, c.guardFirst)) =
+      [("OnChanOpenInit", "port+version", false, true), ("OnChanOpenTry", "port+version", false, true),
+       ("OnChanOpenAck", "version", false, true), ("OnChanOpenConfirm", "none", false, false),
+       ("OnChanCloseInit", "none", false, false), ("OnChanCloseConfirm", "none", false, false),
+       ("OnRecvPacket", "channel", true, true), ("OnAcknowledgementPacket", "none", true, false),
+       ("OnTimeoutPacket", "none", false, false)] := by decide +kernel
+
+/-- the keeper functions behind proposal handlers and wasm variants ("privileged targets") are reached from NO MsgServer method
+through the call graph — except the two reviewed ones:
+* `asset.AddAssetRecords` ← `asset.AddAsset`: MsgAddAsset is the fee-paying public asset registration (x/asset/keeper/asset.go:235,
+  the fee `Params.AssetRegisrationFee` is taken from the signer first); it can only ADD an asset record with a fresh name/denom.
+* `liquidity.CreatePair` ← `liquidity.CreatePair`: the public pair creation pays `PairCreationFee`; the proposal path calls the same
+  function with `isViaProp = true` (no fee). -/
+theorem privileged_targets_reach_pinned :
+    privTargets.length = 71 ∧ (∀ t ∈ privTargets, t.writes = true) ∧
+    ((privTargets.filter fun t => !t.msgReach.isEmpty).map fun t => (t.target, t.msgReach)) =
+      [("asset.AddAssetRecords", ["asset.AddAsset"]), ("liquidity.CreatePair", ["liquidity.CreatePair"])] := by decide +kernel
+
+/-- the model of the gov route: content executed with an authority that is not the gov module account changes nothing -/
+theorem gov_only_blocks {σ : Type} (handler : σ → Except GClass σ) (s : σ) :
+    execLegacyContent false handler s = (s, false) := rfl
+
+theorem gov_authority_runs_handler {σ : Type} (handler : σ → Except GClass σ) (s : σ) :
+    execLegacyContent true handler s = applyIfNoError handler s := rfl
+
+example : execLegacyContent false (fun (n : Nat) => .ok (n + 1)) 5 = (5, false) := rfl
+example : execLegacyContent true (fun (n : Nat) => .ok (n + 1)) 5 = (6, true) := rfl
+example : (entryPoints.filter epPrivileged).length = 47 := by decide +kernel
+example : (entryPoints.filter fun e => e.namesPosition).length = 33 := by decide +kernel
+
+/-- spot entries of the inventory -/
+theorem spot_entry_points :
+    ((entryPoints.filter fun e => epName e ∈ ["esm.MsgKillSwitch", "tokenmint.MsgMintNewTokens", "collector.Deposit", "asset.AddAsset",
+        "wasm.MsgRebaseMint", "asset.AddAppProposal", "bandoracle.OnRecvPacket", "esm.ExecuteESM"]).map
+      fun e => (e.kind, epName e, e.caller, e.via, e.target)) =
+    [("msg", "asset.AddAsset", "signer", "Creator", ""), ("msg", "collector.Deposit", "signer", "Addr", ""),
+     ("msg", "esm.ExecuteESM", "signer", "Depositor", ""), ("msg", "esm.MsgKillSwitch", "admin", "From", ""),
+     ("msg", "tokenmint.MsgMintNewTokens", "signer", "From", ""),
+     ("proposal", "asset.AddAppProposal", "gov", "NewUpdateAssetProposalHandler", "asset.HandleAddAppRecords"),
+     ("wasm", "wasm.MsgRebaseMint", "contract", "comdex-1:comdex1[1],comdex-test3:testnet3[1]", "tokenmint.WasmMsgRebaseMint"),
+     ("ibc", "bandoracle.OnRecvPacket", "ibc", "channel", "")] := by decide +kernel
 
 end Comdex.C12
